@@ -7,6 +7,7 @@
   any segmentation (C03).
 -/
 import ConnectModel.Envelope
+import ConnectModel.Proto
 import ConnectProofs.Lemmas.Envelope
 import ConnectProofs.C03
 
@@ -206,5 +207,18 @@ theorem compress_flag_iff (pool : Option Compressor) (minBytes : Int) (data : By
   | some c =>
     have : isCompressed 0 = false := by decide
     simp only [envWrite, this, Bool.false_eq_true, false_or, flag_or]
+
+/-! ### a message that could not be encoded is not an empty message (fix F34) -/
+
+/-- **refused_message_never_arrives**: the handler of a unary Connect call is given a body only if
+    the client's codec produced one, and then exactly that one. -/
+theorem refused_message_never_arrives (encoded : Option Bytes) (b : Bytes)
+    (h : unaryRequestOnWire encoded = .body b) : encoded = some b := by
+  cases encoded with
+  | none => simp [unaryRequestOnWire] at h
+  | some x => simp [unaryRequestOnWire] at h; rw [h]
+
+/-- **History, F34**: the pinned tree delivered the empty body - a valid zero message -/
+theorem refused_message_arrived_empty_on_pinned : unaryRequestOnWirePinned none = .body [] := rfl
 
 end ConnectModel.C01
